@@ -18,6 +18,7 @@ import (
 	"sort"
 	"strconv"
 	"strings"
+	"time"
 
 	"github.com/oauth2-proxy/oauth2-proxy/v7/pkg/apis/options"
 	"github.com/oauth2-proxy/oauth2-proxy/v7/verifx/world"
@@ -203,6 +204,11 @@ var c17HeaderSets = []c17HeaderSet{
 	{"forwarded", [][2]string{{"X-Forwarded-For", "203.0.113.9"}, {"X-Forwarded-Host", "other.example"}, {"X-Forwarded-Proto", "https"}, {"X-Real-IP", "203.0.113.9"}, {"Forwarded", "for=203.0.113.9;proto=https"},
 		{"Via", "1.1 edge"}, {"X-Request-Id", "req-1"}, {"Referer", "http://app.example.com/prev?x=1"}, {"Origin", "http://app.example.com"}}},
 	{"two-cookies", [][2]string{{"Cookie", "other=1"}}},
+	// names that merely contain (or are contained in, or differ by one character from) the names the
+	// proxy injects: they are the client's own end-to-end headers
+	{"look-alike", [][2]string{{"X-Forwarded-Username", "u1"}, {"X-Forwarded-User-Agent", "u2"}, {"X-Forwarded-Email-Locale", "de"}, {"X-Forwarded-Groups-Extra", "g"},
+		{"X-Amz-Authorization", "AWS4 x"}, {"X-Upstream-Authorization", "tok"}, {"My-X-Forwarded-User", "m"}, {"X-Forwarded-Use", "short"}, {"Forwarded-User", "f"},
+		{"X-Forwarded-Preferred-Username-Hint", "h"}, {"X-Forwarded-Access-Token-Type", "bearer"}, {"X-Auth-Request-User-Id", "7"}, {"Authorization-Info", "ai"}, {"X-Authorization", "xa"}}},
 	{"conditional", [][2]string{{"If-None-Match", "\"abc\""}, {"If-Modified-Since", "Mon, 02 Jan 2006 15:04:05 GMT"}, {"Range", "bytes=0-9"}, {"Cache-Control", "no-cache"}, {"Accept-Language", "de, en;q=0.5"}}},
 }
 
@@ -1103,6 +1109,7 @@ func (e *c17Env) subset(paths []string, k int) []string {
 func c17Run(c *Ctx) {
 	idp := world.NewIdP()
 	defer c17ClosePool()
+	c17SlowBody(c, idp)
 	defer func() {
 		c.Add("responses_preceded_by_interim_response", c17Interim[0])
 		c.Add("interim_responses_relayed_to_client", c17Interim[1])
@@ -1301,4 +1308,66 @@ func init() {
 			return "unknown upstream set " + rq.Set
 		},
 	})
+}
+
+// c17SlowBody (thorough tier, one process): "the upstream's ... body [is] relayed to the client
+// unchanged" also for a body that takes longer than the upstream's configured timeout, which by
+// its documentation bounds the wait FOR a response, not the transfer. The upstream sends its
+// headers at once and three body parts 1.3 s apart (2.6 s in all) behind an upstream entry with
+// timeout 2 s. Real time is involved only to set the scene; the judgement is on bytes: a 200 whose
+// body is not the three parts is a violation, an answer without the upstream's headers (they did
+// not arrive within 2 s: a starved machine) is inconclusive and only counted.
+func c17SlowBody(c *Ctx, idp *world.IdP) {
+	if c.Quick() || c.Shard != 0 {
+		return
+	}
+	up := world.NewUpstream("slow")
+	defer up.Close()
+	parts := []string{"part-1\n", "part-2\n", "part-3\n"}
+	up.Respond = func(w http.ResponseWriter, r *http.Request) {
+		w.Header().Set("X-Upstream", "slow")
+		w.Header().Set("Content-Type", "text/plain")
+		w.WriteHeader(200)
+		for i, p := range parts {
+			io.WriteString(w, p)
+			if f, ok := w.(http.Flusher); ok {
+				f.Flush()
+			}
+			if i < len(parts)-1 {
+				time.Sleep(1300 * time.Millisecond)
+			}
+		}
+	}
+	d := options.Duration(2 * time.Second)
+	idp.Install()
+	px, err := buildProxy(&ProxyCfg{Flags: append(baseFlags("http://127.0.0.1:1/"), "--email-domain=*", "--cookie-secure=false"), Mutate: func(o *options.Options) {
+		o.UpstreamServers.Upstreams = []options.Upstream{{ID: "slow", Path: "/", URI: up.URL(), Timeout: &d}}
+	}})
+	if err != nil {
+		c.Error("C17 slow body: %v", err)
+		return
+	}
+	b := newBrowser(px, "http", c17Host)
+	if resp, _, lerr := b.Login(idp, "alice", "/"); lerr != nil || resp.Status != 302 {
+		c.Error("C17 slow body: login failed: %v status %d", lerr, resp.Status)
+		return
+	}
+	for _, method := range []string{"GET", "POST"} {
+		resp := b.Do(b.Req(method, "/stream"))
+		c.Inc("evaluations")
+		c.Inc("slow_body_exchanges")
+		want := strings.Join(parts, "")
+		cs := map[string]any{"kind": "slow-body", "method": method, "upstream_timeout": "2s", "body_duration": "2.6s", "status": resp.Status, "body": resp.Body}
+		switch {
+		case resp.Panic != nil:
+			c.Violate("C17/panic", fmt.Sprintf("slow upstream body: %v", resp.Panic), 10, cs)
+		case resp.Status == 200 && resp.Body == want:
+			c.Inc("slow_body_relayed_completely")
+		case resp.Header.Get("X-Upstream") != "slow":
+			c.Inc("slow_body_inconclusive_headers_did_not_arrive_in_time")
+			c.Note("slow body (%s): status %d without the upstream's headers — inconclusive (machine under load?)", method, resp.Status)
+		default:
+			c.Violate("C17/response-body", fmt.Sprintf("%s /stream: the upstream (timeout 2s) sent its headers at once and %q over 2.6 s; the client received status %d and body %q", method, want, resp.Status, resp.Body), 10, cs)
+		}
+	}
 }
